@@ -146,6 +146,28 @@ def run(ctx: Ctx) -> None:
         for f in ("nonlocal-wire", "dom-wire", "multi-output", "tracked"):
             if not feats[f]:
                 raise MachineryError(f"generator never produced feature {f}")
+        # ---- directed programs for situations the random generator avoids on purpose
+        directed = []
+        try:
+            from hugr import tys
+            from hugr.build.dfg import Dfg
+            from hugr.std.logic import Not
+            d = Dfg(tys.Bool)
+            f = d.define_function("inner", [], parent=d.parent_node)         # a function definition nested in a dataflow region
+            x = f.add_op(Not, d.inputs()[0])                                 # ... whose body takes a value from outside
+            f.set_outputs(x)
+            d.set_outputs()
+            directed.append(("directed:value-wire-into-nested-funcdefn", json.loads(d.hugr.to_json())))
+        except Exception:  # noqa: BLE001  (a refusal is what the property wants)
+            pass
+        if directed:
+            v3, res3 = judge(directed, wd, "directed")
+            for n, dd in directed:
+                ctx.evaluations += 1
+                f3 = set(v3[n]["failing"])
+                if f3 & BUILDER_CLAUSES:
+                    ctx.violation({"source": n, "clauses": "+".join(sorted(f3 & BUILDER_CLAUSES)), "kind": "builder"}, {"program": n, "document": dd},
+                                  "the builder raises, or the document is valid", sorted(f3), clause="HugrValidity!" + sorted(f3 & BUILDER_CLAUSES)[0], leg="C2S")
         try:
             from . import builder_model
         except ImportError:
